@@ -582,10 +582,17 @@ func wireRun(in *Sx) *Sx {
 	var outs []*Sx
 	aborted := false
 	steps := in.Field("steps")
+	// wall time of the scenario beyond its scripted (sleep ..) steps: the broker's clock is the real one (only stored
+	// deadlines are shifted by (advance ..)), so a run that takes long because the machine is busy is less conclusive
+	tAll := time.Now()
+	var scripted time.Duration
 	for si, st := range steps {
 		if aborted {
 			outs = append(outs, K("s", K("aborted")))
 			continue
+		}
+		if st.List[0].Atom == "sleep" && len(st.List) > 1 {
+			scripted += time.Duration(st.List[1].Int()) * time.Millisecond
 		}
 		t0 := time.Now()
 		extra := rn.step(st)
@@ -616,12 +623,16 @@ func wireRun(in *Sx) *Sx {
 	if os.Getenv("WIRE_DEBUG") == "dump" {
 		fmt.Fprintf(os.Stderr, "%s\n", wireDump())
 	}
+	excess := time.Since(tAll) - scripted
+	if excess < 0 {
+		excess = 0
+	}
 	t0 := time.Now()
 	rn.shutdown()
 	if wireDebug {
 		fmt.Fprintf(os.Stderr, "SHUTDOWN %v polls=%d dumps=%d dumptime=%v\n", time.Since(t0), wireStatPolls, wireStatDumps, wireStatDumpTime)
 	}
-	return L(K("steps", outs...))
+	return L(K("steps", outs...), K("excess_ms", I(int(excess/time.Millisecond))))
 }
 
 func (rn *wireRunner) waitStarted(runErr chan error) bool {
